@@ -14,6 +14,7 @@ import Sqfs.Proofs.TarConv
 import Sqfs.Proofs.TarHeaderFull
 import Sqfs.Proofs.TarFixIter
 import Sqfs.Proofs.TarFixConv
+import Sqfs.Proofs.TarSqfs2tar
 namespace Sqfs.C04
 open Sqfs.Tar
 
@@ -706,6 +707,27 @@ theorem fixpoint_idempotent (img : ImgData) (t t2 : List TNode) (d2 : List (List
   obtain ⟨rfl, rfl⟩ := Prod.mk.inj (Option.some.inj h2)
   exact ⟨rfl, h1⟩
 
+/-! ## sqfs2tar: hard links (`lib/sqfs/src/io/dir_hl.c` on top of `bin/sqfs2tar/src/iterator.c`) -/
+
+/--
+**Hard links before and after their targets.**  Let `es` be the entries sqfs2tar's iterator hands out (names as emitted: after the
+`--subdir` strip and the `--root-becomes` prefix) and `hlFilter [] es` what the hard-link filter makes of them.  Entry by entry:
+a directory passes unchanged; any other entry is reported as a hard link exactly when an *earlier* non-directory entry has the same
+inode reference, and then it points to the emitted name of the **first** such entry (mode `S_IFLNK | 0777`, flag set, no xattrs,
+no data) — otherwise it passes unchanged (and is the target of every later name of its inode).  Which name of an inode is the
+"file" and which are links therefore depends only on the order of the directory listing, never on the order of the members of
+the archive the image was made from.  This is the fact `FromImage.hardTarget` (`Spec/TarFix.lean`) builds on; the model function
+is compared with the real filter on every run (`s2tents` / `s2t`, generated images with links before and after their targets).
+-/
+theorem hardlink_filter_spec (es : List RawEnt) (i : Nat) (hi : i < es.length) :
+    (hlFilter [] es).length = es.length ∧
+    (hlFilter [] es)[i]'(by rw [hlFilter_length]; exact hi) =
+      if fmt es[i].mode = S_IFDIR then es[i]
+      else hlMark es[i] ((linkable (es.take i)).find? (·.1 = es[i].inode)) := by
+  refine ⟨hlFilter_length [] es, ?_⟩
+  have := hlFilter_getElem es [] i hi
+  simpa using this
+
 /-! ### layout facts the models rely on, re-checked against `include/tar/format.h` on every run
 (`Sqfs/Generated/Consts.lean` is regenerated from the working tree; a changed offset or width breaks this build) -/
 section layout
@@ -849,6 +871,13 @@ example : IsHdr (hdrBlock (field 100 ((ascii "././@LongLink").take 99)) 0o644 0 
   ext_isHdr ⟨[], 0, 0, 0, 0, 0, 0, 0, false⟩ (ascii "a/long/name") 76 (ascii "././@LongLink") (by decide)
 
 example : (paxRecord (ascii "path") (ascii "x/y")) = ascii "12 path=x/y\n" := by decide
+-- `hardlink_filter_spec` on a listing with a directory, three names of inode 7 and one other file: the first name in listing
+-- order stays a file, the later ones point to it
+set_option maxRecDepth 100000 in
+example : (hlFilter [] [⟨ascii "d", S_IFDIR + 0o755, 0, 0, 0, 7, none, [], [], 0, 0, false⟩,
+      ⟨ascii "d/a", S_IFREG + 0o644, 0, 0, 0, 7, none, [1], [], 0, 0, false⟩, ⟨ascii "d/b", S_IFREG + 0o644, 0, 0, 0, 8, none, [], [], 0, 0, false⟩,
+      ⟨ascii "e", S_IFREG + 0o644, 0, 0, 0, 7, none, [1], [], 0, 0, false⟩]).map (fun e => (e.name, e.hardLink, e.target)) =
+    [(ascii "d", false, none), (ascii "d/a", false, none), (ascii "d/b", false, none), (ascii "e", true, some (ascii "d/a"))] := by decide
 -- `pax_sparse_map_replaces`: its hypothesis holds for a real map; and the whole parser on numbytes, map, numbytes in one PAX header
 -- (the input of /repo 56b164f): the record that comes last determines the map
 example : paxSparseMap (cstr (ascii "10,3,20,2")) = some [(10, 3), (20, 2)] := by decide
